@@ -39,7 +39,10 @@ def translators_ntt(repo):
         except Exception as e:
             info["ok"] = False
             info["err"] = "unparsable summary: %s" % e
-    return {"gen_ntt_ast": info}
+    out = {"gen_ntt_ast": info}
+    import _init_common as ic          # the tables the transforms read: core::initialize() / prep_wtab (Generated/InitAst.lean)
+    out.update(ic.translators_init(repo))
+    return out
 
 
 NTT_AST_TB = ("source-level tie of the scalar transform kernels (arithmetic blocks only): clang++-14's typed AST (-ast-dump=json) of the "
@@ -47,4 +50,5 @@ NTT_AST_TB = ("source-level tie of the scalar transform kernels (arithmetic bloc
               "block-extraction convention (one cell per (pointer, constant index); all reads before all writes, checked; written cells "
               "distinct), the per-node integer semantics of lean/NflVerif/Model/CSem.lean (signed `int` overflow read as wrap-around at the "
               "sites listed under translators.gen_ntt_ast.ub_wrap_assumed; unsigned->signed conversion modular); the loop structure, the "
-              "table-pointer advance and the bit reversal are NOT translated (hand model + differential stream)")
+              "table-pointer advance and the bit reversal are NOT translated (hand model + differential stream); the TABLES the transforms read are tied to "
+              "core::initialize() / core::prep_wtab by tools/gen_init_ast.py (Nfl.C06Ast.tables_ast: generated builder = hand model's initTables)")
